@@ -5,13 +5,18 @@ Env/MultiCVRP/History.lean).
 correspondence uses `Jx.roundF32`), `D` the distance matrix of the instance, `d0` the demands of the
 instance as generated, `a` the joint action (one node index per vehicle).  Hypotheses `hl`/`hr` say
 that the action has one entry per vehicle and every entry is a node index `≤ num_customers` (the
-documented action range).
+documented action range, docs/environments/multi_cvrp.md).  The DECLARED `action_spec` has maximum
+`num_customers + 1`; for that in-spec value the conclusions are false (model and real code agree):
+theorems that need `hr` are therefore named `…_partial`, and `multicvrp_spec_max_witness` (C05 section)
+is the negation witness for the value `num_customers + 1`.
 -/
 import JumanjiModel.Env.MultiCVRP.Lemmas
 import JumanjiModel.Env.MultiCVRP.History
 import JumanjiModel.Env.MultiCVRP.Bounds
 import JumanjiModel.Env.MultiCVRP.BoundsF32Lemmas
 import JumanjiModel.Env.MultiCVRP.ReturnLemmas
+import JumanjiModel.Env.MultiCVRP.Episode
+import JumanjiModel.Env.MultiCVRP.Generator
 open Jm MultiCVRP
 
 /-- a non-trivial state (3 customers, 2 vehicles of capacity 5, after one step): vehicle 0 has served
@@ -24,6 +29,8 @@ def MultiCVRP.exampleState : State :=
     mask := [[true, false, false, false], [true, true, false, true]] }
 
 def MultiCVRP.exampleCfg : Cfg := { numCustomers := 3, maxCap := 5, dense := true }
+/-- a distance matrix for `exampleState` (unit square, diagonal rounded to 7/5) -/
+def MultiCVRP.exampleDist : Dist := [[0, 1, 1, 7/5], [1, 0, 7/5, 1], [1, 7/5, 0, 1], [7/5, 1, 1, 0]]
 
 namespace Props.C01
 /-- limits for the examples: unit box, demands ≤ 4, windows `[0, 9]`, coefficients ≤ 1, one travel
@@ -150,8 +157,10 @@ theorem multicvrp_cached_mask (rnd : Rat → Rat) (c : Cfg) (D : Dist) (s : Stat
 /-- the environment's own reaction agrees with the rules: the destinations computed by the two
 zeroing stages of `_update_state` (capacity/demand test, then `jnp.unique` + scatter) are exactly
 the destinations the rules prescribe — a vehicle reaches the customer it chose iff the choice is
-legal and no vehicle with a smaller index legally chose the same customer; otherwise the depot -/
-theorem multicvrp_step_agrees (rnd : Rat → Rat) (c : Cfg) (D : Dist) (s : State) (a : List Nat)
+legal and no vehicle with a smaller index legally chose the same customer; otherwise the depot.
+PARTIAL: entries `≤ num_customers` only (`hr`); false for the in-spec value `num_customers + 1`, see
+`multicvrp_spec_max_witness` -/
+theorem multicvrp_step_agrees_partial (rnd : Rat → Rat) (c : Cfg) (D : Dist) (s : State) (a : List Nat)
     (hl : a.length = s.capacities.length) (hr : ∀ x ∈ a, x < s.demands.length) :
     (step rnd c D s a).1.positions = dests s a := by
   rw [MultiCVRP.step_state, MultiCVRP.update_positions]; exact MultiCVRP.nextNodes_eq_dests s a hl hr
@@ -169,8 +178,10 @@ end Props.C04
 
 namespace Props.C05
 /-- an illegal choice of one vehicle is treated exactly like the choice "depot": the whole step
-(successor state and timestep) is the one obtained when that vehicle asks for the depot -/
-theorem multicvrp_illegal_is_depot (rnd : Rat → Rat) (c : Cfg) (D : Dist) (s : State) (a : List Nat)
+(successor state and timestep) is the one obtained when that vehicle asks for the depot.
+PARTIAL: the illegal choice is a node index `≤ num_customers` (`hr`); the in-spec value `num_customers + 1` is
+illegal by the rules but is NOT treated like the depot (`multicvrp_spec_max_witness`) -/
+theorem multicvrp_illegal_is_depot_partial (rnd : Rat → Rat) (c : Cfg) (D : Dist) (s : State) (a : List Nat)
     (hl : a.length = s.capacities.length) (v : Nat) (hv : v < a.length)
     (hr : a.getD v 0 < s.demands.length) (h0 : 0 < s.demands.length)
     (hill : ¬ legal s v (a.getD v 0)) :
@@ -179,11 +190,47 @@ theorem multicvrp_illegal_is_depot (rnd : Rat → Rat) (c : Cfg) (D : Dist) (s :
 
 /-- every vehicle whose choice is not honoured (illegal, or lost against a smaller index) ends at
 the depot with a full vehicle, and exactly the customers of honoured choices are served.
-`IllegalIgnored` is the predicate the driver evaluates on implementation transitions. -/
-theorem multicvrp_illegal_ignored (rnd : Rat → Rat) (c : Cfg) (D : Dist) (s : State) (a : List Nat)
+`IllegalIgnored` is the predicate the driver evaluates on implementation transitions.
+PARTIAL: entries `≤ num_customers` only (`hr`), see `multicvrp_spec_max_witness` -/
+theorem multicvrp_illegal_ignored_partial (rnd : Rat → Rat) (c : Cfg) (D : Dist) (s : State) (a : List Nat)
     (hl : a.length = s.capacities.length) (hr : ∀ x ∈ a, x < s.demands.length)
     (hd0 : s.demands.getD DEPOT 0 = 0) : IllegalIgnored c s a (step rnd c D s a).1 :=
   MultiCVRP.step_illegalIgnored rnd c D s a hl hr hd0
+
+/-- the hypothesis `hr` of the `_partial` theorems cannot be weakened to the DECLARED action range
+(`action_spec.maximum = num_customers + 1`).  On `exampleState` (3 customers) the joint action `[0, 4]` is in-spec
+and vehicle 1's choice `4` is illegal by the rules (no such node), yet `step` — like the real `_update_state`,
+whose gathers clamp `demands[4]` to `demands[3]` and whose scatter `demands.at[4].set(0)` is dropped — sends
+vehicle 1 to "node 4": position 4 instead of the depot (`multicvrp_step_agrees_partial`,
+`multicvrp_illegal_is_depot_partial`, `multicvrp_illegal_ignored_partial` fail), its capacity drops by the demand of
+customer 3 which stays unserved (`Feasible` fails: `multicvrp_step_feasible_partial`), and the observation shows
+the vehicle at customer 3's coordinates whereas the documented `observe` has no coordinates for node 4
+(`multicvrp_obs_faithful_partial` fails).  Real code: `MultiCVRP()`, `reset(PRNGKey(0))`, action `[21, 0]` passes
+`action_spec.validate`; positions become `[21, 0]`, capacities `[52, 60]`, demand of customer 20 still 8. -/
+theorem multicvrp_spec_max_witness :
+    -- the hypotheses of the `_partial` theorems with `x < num_customers + 1` weakened to the declared `x ≤ num_customers + 1`
+    [0, MultiCVRP.exampleCfg.numCustomers + 1].length = MultiCVRP.exampleState.capacities.length ∧
+    (∀ x ∈ [0, MultiCVRP.exampleCfg.numCustomers + 1], x ≤ MultiCVRP.exampleCfg.numCustomers + 1) ∧
+    Feasible MultiCVRP.exampleCfg [0, 2, 4, 3] MultiCVRP.exampleState ∧
+    MultiCVRP.exampleState.coords.length = MultiCVRP.exampleState.demands.length ∧
+    MultiCVRP.exampleState.demands.getD DEPOT 0 = 0 ∧
+    ¬ legal MultiCVRP.exampleState 1 (MultiCVRP.exampleCfg.numCustomers + 1) ∧
+    -- … and the conclusions fail:
+    (step id MultiCVRP.exampleCfg MultiCVRP.exampleDist MultiCVRP.exampleState [0, 4]).1.positions = [0, 4] ∧
+    dests MultiCVRP.exampleState [0, 4] = [0, 0] ∧
+    (step id MultiCVRP.exampleCfg MultiCVRP.exampleDist MultiCVRP.exampleState [0, 4]).1.capacities = [5, 2] ∧
+    (step id MultiCVRP.exampleCfg MultiCVRP.exampleDist MultiCVRP.exampleState [0, 4]).1.demands = [0, 2, 0, 3] ∧
+    (step id MultiCVRP.exampleCfg MultiCVRP.exampleDist MultiCVRP.exampleState [0, 4]).1 ≠
+      (step id MultiCVRP.exampleCfg MultiCVRP.exampleDist MultiCVRP.exampleState [0, DEPOT]).1 ∧
+    ¬ IllegalIgnored MultiCVRP.exampleCfg MultiCVRP.exampleState [0, 4]
+        (step id MultiCVRP.exampleCfg MultiCVRP.exampleDist MultiCVRP.exampleState [0, 4]).1 ∧
+    ¬ Feasible MultiCVRP.exampleCfg [0, 2, 4, 3]
+        (step id MultiCVRP.exampleCfg MultiCVRP.exampleDist MultiCVRP.exampleState [0, 4]).1 ∧
+    (step id MultiCVRP.exampleCfg MultiCVRP.exampleDist MultiCVRP.exampleState [0, 4]).2.obs ≠
+      observe (step id MultiCVRP.exampleCfg MultiCVRP.exampleDist MultiCVRP.exampleState [0, 4]).1 ∧
+    (step id MultiCVRP.exampleCfg MultiCVRP.exampleDist MultiCVRP.exampleState [0, 4]).2.obs.vehCoords = [[0, 0], [1, 1]] ∧
+    (observe (step id MultiCVRP.exampleCfg MultiCVRP.exampleDist MultiCVRP.exampleState [0, 4]).1).vehCoords = [[0, 0], []] := by
+  decide +kernel
 end Props.C05
 
 namespace Props.C06
@@ -195,8 +242,9 @@ theorem multicvrp_reset_feasible (c : Cfg) (nV : Nat) (demandMax : Int) (mapMax 
 
 /-- ANY joint action with in-range entries (legal or not) keeps the history-free hard constraints:
 each demand untouched or zeroed, each vehicle's remaining capacity within `[0, maxCap]` (the load on
-board never exceeds the capacity), no two vehicles at the same customer, cached mask consistent -/
-theorem multicvrp_step_basicFeasible (rnd : Rat → Rat) (c : Cfg) (D : Dist) (d0 : List Int) (s : State)
+board never exceeds the capacity), no two vehicles at the same customer, cached mask consistent.
+PARTIAL: entries `≤ num_customers` only (`hr`) -/
+theorem multicvrp_step_basicFeasible_partial (rnd : Rat → Rat) (c : Cfg) (D : Dist) (d0 : List Int) (s : State)
     (a : List Nat) (hm : 0 ≤ c.maxCap) (hl : a.length = s.capacities.length)
     (hr : ∀ x ∈ a, x < s.demands.length) (hf : BasicFeasible c d0 s) :
     BasicFeasible c d0 (step rnd c D s a).1 :=
@@ -207,8 +255,10 @@ above and, while the recorded history is complete (`stepCount ≤ 2·num_custome
 recomputed from the recorded routes: each route starts at the depot and ends where the vehicle
 stands, no customer appears twice on all routes together and its demand is zero exactly when it
 appears, on every route the load never exceeds the capacity and `capacity` is what is left of it.
-This is the predicate the driver evaluates on implementation states. -/
-theorem multicvrp_step_feasible (rnd : Rat → Rat) (c : Cfg) (D : Dist) (d0 : List Int) (s : State)
+This is the predicate the driver evaluates on implementation states.
+PARTIAL: entries `≤ num_customers` only (`hr`); false for the in-spec value `num_customers + 1`
+(`Props.C05.multicvrp_spec_max_witness`) -/
+theorem multicvrp_step_feasible_partial (rnd : Rat → Rat) (c : Cfg) (D : Dist) (d0 : List Int) (s : State)
     (a : List Nat) (hm : 0 ≤ c.maxCap) (hl : a.length = s.capacities.length)
     (hr : ∀ x ∈ a, x < s.demands.length) (hf : Feasible c d0 s) :
     Feasible c d0 (step rnd c D s a).1 := MultiCVRP.step_feasible rnd c D d0 s a hm hl hr hf
@@ -238,8 +288,9 @@ theorem multicvrp_no_shared_customer (s : State) (a : List Nat) (u v : Nat) (hu 
   MultiCVRP.dests_no_shared_customer s a u v hu hvu he
 
 /-- a customer is served at most once: a vehicle is only sent to a customer that still has demand,
-the demand of a served customer becomes zero, and zero demand stays zero -/
-theorem multicvrp_served_once (rnd : Rat → Rat) (c : Cfg) (D : Dist) (s : State) (a : List Nat)
+the demand of a served customer becomes zero, and zero demand stays zero.
+PARTIAL: entries `≤ num_customers` only (`hr`, needed for the second part) -/
+theorem multicvrp_served_once_partial (rnd : Rat → Rat) (c : Cfg) (D : Dist) (s : State) (a : List Nat)
     (hl : a.length = s.capacities.length) (hr : ∀ x ∈ a, x < s.demands.length) (v : Nat)
     (hv : v < a.length) :
     ((dests s a).getD v 0 ≠ DEPOT → 0 < s.demands.getD ((dests s a).getD v 0) 0) ∧
@@ -255,15 +306,58 @@ theorem multicvrp_served_once (rnd : Rat → Rat) (c : Cfg) (D : Dist) (s : Stat
     rw [MultiCVRP.step_state, MultiCVRP.update_demands, MultiCVRP.nextNodes_eq_dests s a hl hr]
 
 example : Feasible MultiCVRP.exampleCfg [0, 2, 4, 3] MultiCVRP.exampleState := by decide +kernel
+
+/-! #### whole episodes (Env/MultiCVRP/Episode.lean) -/
+
+/-- WHOLE EPISODE: from a feasible state, after every prefix (`as.take k`, every `k`) of every play `as` of joint
+actions with one entry per vehicle and entries `≤ num_customers` (`InRange`: legal or not, any number of steps —
+also beyond the end of the episode), for every rounding function, the state reached (`runState`) is `Feasible`.
+PARTIAL only in the sense of audit entry 3: the action range is the documented `[0, num_customers]`, not the
+declared one. -/
+theorem multicvrp_feasible_along (rnd : Rat → Rat) (c : Cfg) (D : Dist) (d0 : List Int) (s : State)
+    (as : List (List Nat)) (hm : 0 ≤ c.maxCap) (hf : Feasible c d0 s)
+    (hr : InRange s.demands.length s.capacities.length as) (k : Nat) :
+    Feasible c d0 (runState rnd c D s (as.take k)) := MultiCVRP.feasible_along rnd c D d0 s as hm hf hr k
+
+/-- … from `reset`: every instance the generator can draw, every such play, every prefix -/
+theorem multicvrp_reset_feasible_along (rnd : Rat → Rat) (c : Cfg) (D : Dist) (nV : Nat) (demandMax : Int)
+    (mapMax windowLen : Rat) (d : Draw) (as : List (List Nat)) (hm : 0 ≤ c.maxCap) (hpos : 0 ≤ demandMax)
+    (hd : validDraw c mapMax d) (hr : InRange (c.numCustomers + 1) nV as) (k : Nat) :
+    Feasible c (reset c nV demandMax windowLen d).1.demands
+      (runState rnd c D (reset c nV demandMax windowLen d).1 (as.take k)) :=
+  MultiCVRP.reset_feasible_along rnd c D nV demandMax mapMax windowLen d as hm hpos hd hr k
+
+/-- … and a play that reaches "no demand left, all vehicles at the depot" holds a complete feasible solution -/
+theorem multicvrp_run_complete_is_solution (rnd : Rat → Rat) (c : Cfg) (D : Dist) (d0 : List Int) (s : State)
+    (as : List (List Nat)) (hm : 0 ≤ c.maxCap) (hf : Feasible c d0 s)
+    (hr : InRange s.demands.length s.capacities.length as)
+    (h : allServedAtDepot (runState rnd c D s as) = true) : IsSolution c d0 (runState rnd c D s as) :=
+  MultiCVRP.run_complete_is_solution rnd c D d0 s as hm hf hr h
+
+/-- the hypotheses are satisfiable: from `exampleState`, vehicle 1 serves customers 1 and 3 (vehicle 0 tries the
+illegal customer 1 on the way) and everybody returns: the play is in range and ends with a complete solution -/
+example : InRange MultiCVRP.exampleState.demands.length MultiCVRP.exampleState.capacities.length
+      [[1, 1], [0, 3], [0, 0]] ∧
+    allServedAtDepot (runState id MultiCVRP.exampleCfg MultiCVRP.exampleDist MultiCVRP.exampleState
+      [[1, 1], [0, 3], [0, 0]]) = true := by decide +kernel
 end Props.C06
 
 namespace Props.C08
 /-- dense reward telescopes (exact arithmetic): before the step limit, the reward of a step is the
-change of the accumulated objective −(Σ distances + Σ time penalties) -/
-theorem multicvrp_dense_telescopes (c : Cfg) (D : Dist) (s : State) (a : List Nat) (hd : c.dense = true)
+change of the accumulated objective −(Σ distances + Σ time penalties).
+PARTIAL: steps whose successor has not timed out (`ht`); the general form is `multicvrp_dense_reward` -/
+theorem multicvrp_dense_telescopes_partial (c : Cfg) (D : Dist) (s : State) (a : List Nat) (hd : c.dense = true)
     (ht : timedOut c (step id c D s a).1 = false) :
     (step id c D s a).2.reward = [accumulated (step id c D s a).1 - accumulated s] :=
   MultiCVRP.dense_telescopes c D s a hd ht
+
+/-- dense reward of EVERY step (exact arithmetic): at the step limit `worst_case_remaining_reward` of the
+successor (which is NOT the change of the objective: `multicvrp_dense_ne_sparse_timeout_witness`), otherwise the
+change of the accumulated objective -/
+theorem multicvrp_dense_reward (c : Cfg) (D : Dist) (s : State) (a : List Nat) (hd : c.dense = true) :
+    (step id c D s a).2.reward =
+      [if timedOut c (step id c D s a).1 then worstCase D (step id c D s a).1
+       else accumulated (step id c D s a).1 - accumulated s] := MultiCVRP.dense_reward c D s a hd
 
 /-- sparse reward: zero before the end; at an end before the step limit the whole accumulated
 objective; at the step limit `worst_case_remaining_reward` -/
@@ -294,8 +388,9 @@ theorem multicvrp_reset_accInv (c : Cfg) (D : Dist) (nV : Nat) (demandMax : Int)
   MultiCVRP.generate_accInv c D nV demandMax windowLen d hn hw he hl
 
 /-- every step with an in-spec joint action (legal or not), either reward function, taken while the history is
-still recorded (`stepCount < 2·num_customers`, i.e. the successor has not timed out) preserves `AccInv` -/
-theorem multicvrp_step_accInv (c : Cfg) (D : Dist) (s : State) (a : List Nat) (h : AccInv c D s)
+still recorded (`stepCount < 2·num_customers`, i.e. the successor has not timed out) preserves `AccInv`.
+PARTIAL: entries `≤ num_customers` only (`hr`) -/
+theorem multicvrp_step_accInv_partial (c : Cfg) (D : Dist) (s : State) (a : List Nat) (h : AccInv c D s)
     (hl : a.length = s.capacities.length) (hr : ∀ x ∈ a, x < s.demands.length)
     (hrec : s.stepCount < 2 * c.numCustomers) : AccInv c D (step id c D s a).1 :=
   MultiCVRP.update_accInv c D s a h hl hr hrec
@@ -311,17 +406,22 @@ theorem multicvrp_accumulators_are_routes (c : Cfg) (D : Dist) (s : State) (h : 
   rw [h.nTimes] at hv
   rw [h.times v hv, MultiCVRP.getD_map_lt _ _ _ _ [] (by rw [MultiCVRP.routes_length h]; exact hv)]
 
-/-- `AccInv` holds at the end of every in-spec run from a state with `AccInv` that stays within the recorded
-history -/
-theorem multicvrp_accInv_along (c : Cfg) (D : Dist) (s : State) (as : List (List Nat)) (h : AccInv c D s)
+/-- `AccInv` holds at the end of every run of joint actions with entries `≤ num_customers` (`Episode` ⊇ `InSpec`)
+from a state with `AccInv` that stays within the recorded history.
+PARTIAL: documented action range only (audit entry 3) -/
+theorem multicvrp_accInv_along_partial (c : Cfg) (D : Dist) (s : State) (as : List (List Nat)) (h : AccInv c D s)
     (he : Episode c D s as) (hlim : s.stepCount + as.length ≤ 2 * c.numCustomers) :
     AccInv c D (finalState c D s as) := MultiCVRP.finalState_accInv c D s as h he hlim
 
 /-- whole episode: for a complete episode of in-spec joint actions from a reset state (`Episode`: the last step
 and only the last step is LAST) that ends before the step limit, the sum of the dense rewards = the sum of the
 sparse rewards = the documented objective (minus total distance, minus all time penalties) recomputed from the
-routes recorded in the final state.  (The state evolution does not depend on the reward function.) -/
-theorem multicvrp_dense_eq_sparse_eq_objective (c : Cfg) (D : Dist) (nV : Nat) (demandMax : Int)
+routes recorded in the final state.  (The state evolution does not depend on the reward function.)
+PARTIAL twice: (1) joint actions with entries `≤ num_customers` (`Episode` contains `InSpec`; audit entry 3);
+(2) episodes that end BEFORE the step limit (`ht`) in exact arithmetic — for an episode ended by the step limit
+the statement is false, see `multicvrp_dense_ne_sparse_timeout_witness`.  The matrix `D` is arbitrary here;
+`multicvrp_dense_eq_sparse_eq_objective_euclid_partial` ties it to the coordinates. -/
+theorem multicvrp_dense_eq_sparse_eq_objective_partial (c : Cfg) (D : Dist) (nV : Nat) (demandMax : Int)
     (windowLen : Rat) (d : Draw) (as : List (List Nat)) (hn : 1 ≤ c.numCustomers)
     (hw : d.winStart.length = d.scaled.length) (hce : d.coefEarly.length = d.scaled.length)
     (hcl : d.coefLate.length = d.scaled.length)
@@ -341,10 +441,80 @@ example : Episode exCfg exD exS0 [[1, 2], [0, 0]] ∧ timedOut exCfg (finalState
     objective exD (finalState exCfg exD exS0 [[1, 2], [0, 0]]) = -11/2 := by decide +kernel
 example : AccInv exCfg exD exS0 :=
   multicvrp_reset_accInv exCfg exD 2 4 (1/2) exDraw (by decide) (by decide) (by decide) (by decide)
+
+/-- the hypothesis `ht` (the episode ends before the step limit) cannot be dropped: on the instance above the
+complete in-spec episode "vehicle 0 serves customer 1 and returns, then everybody idles" runs into the step limit
+(4 steps, `2·num_customers = 4`) with customer 2 unserved; the dense return is −19/2 (the legs driven, −5/2, plus
+`worst_case_remaining_reward` = −7), the sparse return is −7 (`worst_case_remaining_reward` only) and the
+objective of the recorded routes is −5/2: all three differ.  Same on the real code (`DenseReward` /
+`SparseReward` both replace the last reward by `worst_case_remaining_reward(new_state)`; the dense one has
+already paid for the legs driven). -/
+theorem multicvrp_dense_ne_sparse_timeout_witness :
+    Episode exCfg exD exS0 [[1, 0], [0, 0], [0, 0], [0, 0]] ∧
+    timedOut exCfg (finalState exCfg exD exS0 [[1, 0], [0, 0], [0, 0], [0, 0]]) = true ∧
+    retOf { exCfg with dense := true } exD exS0 [[1, 0], [0, 0], [0, 0], [0, 0]] = -19/2 ∧
+    retOf { exCfg with dense := false } exD exS0 [[1, 0], [0, 0], [0, 0], [0, 0]] = -7 ∧
+    objective exD (finalState exCfg exD exS0 [[1, 0], [0, 0], [0, 0], [0, 0]]) = -5/2 := by decide +kernel
+
+/-! #### the distance matrix tied to the coordinates (`distMatches`) -/
+
+/-- what the executable test `distMatches` (evaluated by `multi_cvrp.instance` on every reset state, there with a
+float32 tolerance) means at tolerance 0: `D` is the Euclidean distance matrix of the coordinates — every entry
+between two nodes is non-negative and its square is the squared distance of the two points -/
+theorem multicvrp_distMatches_euclid (coords : List (List Rat)) (D : Dist) (h : distMatches 0 coords D = true) :
+    Euclid coords D := MultiCVRP.distMatches_euclid coords D h
+
+/-- consequently `D` is determined by the coordinates on all node pairs, symmetric, with zero diagonal -/
+theorem multicvrp_euclid_unique (coords : List (List Rat)) (D D' : Dist) (h : Euclid coords D) (h' : Euclid coords D')
+    (i j : Nat) (hi : i < coords.length) (hj : j < coords.length) :
+    dist D i j = dist D' i j ∧ dist D i j = dist D j i ∧ dist D i i = 0 :=
+  ⟨MultiCVRP.euclid_unique coords D D' h h' i j hi hj, MultiCVRP.euclid_symm coords D h i j hi hj,
+   MultiCVRP.euclid_self coords D h i hi⟩
+
+/-- the objective of a state whose recorded node indices are nodes of the instance is a function of the coordinates
+and the routes: any two Euclidean matrices give the same value -/
+theorem multicvrp_objective_euclid_unique (D D' : Dist) (s : State) (h : OrderInRange s)
+    (hc : s.coords.length = s.demands.length) (hD : Euclid s.coords D) (hD' : Euclid s.coords D') :
+    objective D s = objective D' s := MultiCVRP.objective_euclid_unique D D' s h hc hD hD'
+
+/-- whole episode with `D` TIED to the instance: if `D` passes `distMatches 0` against the drawn coordinates, then
+for a complete episode (entries `≤ num_customers`) from the reset state that ends before the step limit, dense
+return = sparse return = the documented objective of the recorded routes computed with ANY Euclidean matrix `D'`
+of the coordinates — i.e. minus (Σ Euclidean leg lengths + Σ time penalties at Euclidean arrival times).
+PARTIAL as `multicvrp_dense_eq_sparse_eq_objective_partial` (documented action range; episodes ending before the
+step limit; exact arithmetic, hence instances whose node distances are rational) -/
+theorem multicvrp_dense_eq_sparse_eq_objective_euclid_partial (c : Cfg) (D D' : Dist) (nV : Nat) (demandMax : Int)
+    (windowLen : Rat) (d : Draw) (as : List (List Nat)) (hn : 1 ≤ c.numCustomers)
+    (hw : d.winStart.length = d.scaled.length) (hce : d.coefEarly.length = d.scaled.length)
+    (hcl : d.coefLate.length = d.scaled.length) (hco : d.coords.length = d.scaled.length)
+    (h0 : 0 < d.scaled.length) (hD : distMatches 0 d.coords D = true) (hD' : distMatches 0 d.coords D' = true)
+    (he : Episode c D (reset c nV demandMax windowLen d).1 as)
+    (ht : timedOut c (finalState c D (reset c nV demandMax windowLen d).1 as) = false) :
+    retOf { c with dense := true } D (reset c nV demandMax windowLen d).1 as =
+      objective D' (finalState c D (reset c nV demandMax windowLen d).1 as) ∧
+    retOf { c with dense := false } D (reset c nV demandMax windowLen d).1 as =
+      objective D' (finalState c D (reset c nV demandMax windowLen d).1 as) :=
+  MultiCVRP.episode_return_euclid c D D' nV demandMax windowLen d as hn hw hce hcl hco h0 hD hD' he ht
+
+/-- a Pythagorean instance (depot (0,0), customers (3,0) and (0,4): distances 3, 4, 5) for the hypotheses -/
+def pyDraw : Draw :=
+  { coords := [[0, 0], [3, 0], [0, 4]], scaled := [0, 2, 3], winStart := [0, 0, 0],
+    coefEarly := [0, 1, 1], coefLate := [0, 1, 2] }
+def pyD : Dist := [[0, 3, 4], [3, 0, 5], [4, 5, 0]]
+/-- the hypotheses are satisfiable: `pyD` passes `distMatches 0`; one vehicle serves both customers (depot, 1, 2,
+depot: 3 + 5 + 4 = 12 driven, late by 5/2 at customer 1 and 15/2 at customer 2 with coefficients 1 and 2),
+the episode ends at step count 4 ≤ 4 and both returns are −12 − (5/2 + 15) = −59/2 -/
+example : distMatches 0 pyDraw.coords pyD = true ∧
+    Episode exCfg pyD (reset exCfg 2 4 (1/2) pyDraw).1 [[1, 0], [2, 0], [0, 0]] ∧
+    timedOut exCfg (finalState exCfg pyD (reset exCfg 2 4 (1/2) pyDraw).1 [[1, 0], [2, 0], [0, 0]]) = false ∧
+    retOf { exCfg with dense := true } pyD (reset exCfg 2 4 (1/2) pyDraw).1 [[1, 0], [2, 0], [0, 0]] = -59/2 ∧
+    retOf { exCfg with dense := false } pyD (reset exCfg 2 4 (1/2) pyDraw).1 [[1, 0], [2, 0], [0, 0]] = -59/2 := by
+  decide +kernel
 end Props.C08
 
 namespace Props.C10
-/-- whatever `UniformRandomGenerator` draws (coordinates in the box, non-negative scaled demands with
+/-- (the ranges of the random arrays are ASSUMED here by `validDraw`; `multicvrp_raw_draw_valid` below derives them
+from the raw random numbers.)  Whatever `UniformRandomGenerator` draws (coordinates in the box, non-negative scaled demands with
 the depot's zero), given `customer_demand_max ≤ max_capacity` (true of every shipped scenario): the
 depot has no demand, every demand is within `[0, min(customer_demand_max, max_capacity)]`, the
 coordinates are in the declared box and the start state is the documented one -/
@@ -358,6 +528,108 @@ theorem multicvrp_generate_instance (c : Cfg) (nV : Nat) (demandMax : Int) (mapM
 example : validDraw MultiCVRP.exampleCfg 10
     { coords := [[0, 1/2], [10, 1], [1/3, 1/3], [5, 5]], scaled := [0, 7, 0, 3], winStart := [],
       coefEarly := [], coefLate := [] } := by decide +kernel
+
+/-! #### the generator from the RAW random numbers (audit r1 entry 10; Env/MultiCVRP/Generator.lean)
+
+The draw is what the PRNG delivers (`RawDraw`: unit uniforms `0 ≤ u < 1` and `randint` values
+`0 ≤ x < customer_demand_max`, `validRaw`); `uniformMap` transliterates `jax.random.uniform(minval, maxval)`
+(`max(minval, u·(maxval − minval) + minval)`), `scaleDemands` the int16 demand scaling, `generateRaw` the whole of
+`UniformRandomGenerator.__call__`.  `multi_cvrp.instance` (request field `raw`, adapter hook `instance_extra`)
+checks on every C10 run that the implementation's reset state EQUALS `generateRaw Jx.roundF32 … raw` for the raw
+numbers recomputed from the reset key, and that they satisfy `validRaw`. -/
+
+/-- `jax.random.uniform(minval = lo, maxval = hi)` in exact arithmetic maps a unit uniform into `[lo, hi]`, and into
+`[lo, hi)` when `lo < hi` — the range is a conclusion -/
+theorem multicvrp_uniform_range (lo hi u : Rat) (h : lo ≤ hi) (h0 : 0 ≤ u) (h1 : u < 1) :
+    lo ≤ uniformMap id lo hi u ∧ uniformMap id lo hi u ≤ hi ∧ (lo < hi → uniformMap id lo hi u < hi) :=
+  MultiCVRP.uniformMap_id_range lo hi u h h0 h1
+
+/-- … in ROUNDED arithmetic: never below `minval` for any rounding function (the final `lax.max`); with `minval = 0`
+and a monotone rounding that fixes 0 and `maxval`, never above `maxval`; with `minval = maxval` the constant -/
+theorem multicvrp_uniform_range_rnd (rnd : Rat → Rat) (lo hi u : Rat) :
+    lo ≤ uniformMap rnd lo hi u ∧
+    (RndMono rnd → rnd hi = hi → 0 ≤ hi → 0 ≤ u → u < 1 → uniformMap rnd 0 hi u ≤ hi) ∧
+    (rnd 0 = 0 → rnd lo = lo → uniformMap rnd lo lo u = lo) :=
+  ⟨MultiCVRP.uniformMap_ge rnd lo hi u,
+   fun hr hh h0 hu0 hu1 => (MultiCVRP.uniformMap_rnd_le rnd hr hi u hh h0 hu0 hu1).2,
+   fun h0 hl => MultiCVRP.uniformMap_const rnd lo u h0 hl⟩
+
+/-- … for float32 (`Jx.roundF32`) and a representable `maxval = k · 2^sh` (`k < 2^24`): e.g. every integer
+`map_max < 2^24` -/
+theorem multicvrp_uniform_range_roundF32 (k : Nat) (sh : Int) (hk : k < 16777216) (hs : -149 ≤ sh) (u : Rat)
+    (hu0 : 0 ≤ u) (hu1 : u < 1) :
+    0 ≤ uniformMap Jx.roundF32 0 ((k : Rat) * Jx.pow2 sh) u ∧
+    uniformMap Jx.roundF32 0 ((k : Rat) * Jx.pow2 sh) u ≤ (k : Rat) * Jx.pow2 sh :=
+  MultiCVRP.uniformMap_rnd_le Jx.roundF32 MultiCVRP.rndMono_roundF32 _ u (Jx.roundF32_fix k sh hk hs)
+    (Rat.mul_nonneg (by exact_mod_cast Nat.zero_le k) (Rat.le_of_lt (Jx.pow2_pos sh))) hu0 hu1
+
+/-- the int16 demand scaling `int16(demands · (total_capacity / Σ demands))` in exact arithmetic: from non-negative
+`randint` values every scaled demand lies in `[0, total_capacity]`, so with `total_capacity ≤ 32767` the int16
+conversion (`wrap16`, modelled) never wraps; and the depot's scaled demand is 0 for every rounding fixing 0 -/
+theorem multicvrp_scaled_demands_range (total : Int) (raw : List Int) (ht0 : 0 ≤ total) (ht : total ≤ 32767)
+    (hraw : ∀ x ∈ raw, 0 ≤ x) :
+    (∀ y ∈ scaleDemands id total raw, 0 ≤ y ∧ y ≤ total) ∧
+    (∀ rnd : Rat → Rat, rnd 0 = 0 → 0 < raw.length → (scaleDemands rnd total raw).getD DEPOT 1 = 0) :=
+  ⟨MultiCVRP.scaleDemands_id_range total raw ht0 ht hraw,
+   fun rnd h0 hl => MultiCVRP.scaleDemands_depot rnd h0 total raw hl⟩
+
+/-- ENTRY 10: for every raw draw the PRNG can deliver (`validRaw`) and sane generator parameters (`GenOK`), the random
+arrays computed by the transliterated arithmetic satisfy `validDrawB` (hence `validDraw`): coordinates in
+`[0, map_max]`, scaled demands `≥ 0` with the depot's 0, window starts in `[0, max_start_window]`, coefficients in
+`[0, coef_rand[1]]` — the ranges the other generator / reset theorems ASSUME are conclusions here -/
+theorem multicvrp_raw_draw_valid (c : Cfg) (nV : Nat) (g : GenCfg) (r : RawDraw) (dmax : Rat) (hg : GenOK c nV g)
+    (hdm : 0 ≤ dmax) (hr : validRaw c g r) : validDrawB c (genLim g dmax) (drawOfRaw id c nV g r) :=
+  MultiCVRP.drawOfRaw_validDrawB c nV g r dmax hg hdm hr
+
+/-- … so for EVERY valid raw draw the generated start state (`generateRaw id` = `reset`'s state) has the advertised
+invariants: demands within `[0, min(customer_demand_max, max_capacity)]` with the depot's 0 (given
+`customer_demand_max ≤ max_capacity`), coordinates in the box — strictly below `map_max` —, the documented initial
+vehicle state, `Feasible`, the bounds invariant `BInv`, and every leaf of the reset observation in `obsBounds` -/
+theorem multicvrp_generate_instance_raw (c : Cfg) (nV : Nat) (g : GenCfg) (r : RawDraw) (dmax : Rat)
+    (hg : GenOK c nV g) (hdm : 0 ≤ dmax) (hcon : g.demandMax ≤ c.maxCap) (hmm : 0 < g.mapMax)
+    (hr : validRaw c g r) :
+    demandsOK c g.demandMax (generateRaw id c nV g r) ∧ coordsInBox g.mapMax (generateRaw id c nV g r) ∧
+    (∀ p ∈ (generateRaw id c nV g r).coords, ∀ x ∈ p, 0 ≤ x ∧ x < g.mapMax) ∧
+    IsInitial c nV (generateRaw id c nV g r) ∧
+    Feasible c (generateRaw id c nV g r).demands (generateRaw id c nV g r) ∧
+    BInv c (genLim g dmax) (generateRaw id c nV g r) ∧
+    Jm.OB.InBounds (obsBounds c (genLim g dmax))
+      (obsLeaves (reset c nV g.demandMax g.windowLen (drawOfRaw id c nV g r)).2.obs) := by
+  have hv := MultiCVRP.drawOfRaw_validDrawB c nV g r dmax hg hdm hr
+  have hi := MultiCVRP.generate_instance c nV g.demandMax g.mapMax g.windowLen _ hcon hg.2.2.1 hv.1
+  rw [MultiCVRP.generateRaw_id]
+  exact ⟨hi.1, hi.2.1, MultiCVRP.generateRaw_coords_lt c nV g r hmm hr, hi.2.2,
+    MultiCVRP.generate_feasible c nV g.demandMax g.mapMax g.windowLen _ hg.1 hg.2.2.1 hv.1,
+    MultiCVRP.reset_bInv c (genLim g dmax) nV _ hv, MultiCVRP.reset_obs_in_bounds c (genLim g dmax) nV _ hv⟩
+
+/-- … and the instance never asks for more than the fleet can carry (the purpose of the scaling, "to ensure a
+feasible solution"): Σ demands ≤ `max_capacity · num_vehicles`, for every valid raw draw (exact arithmetic; the
+certificate `total_demand_le_fleet_capacity` of `multi_cvrp.instance` checks it on the float32 implementation) -/
+theorem multicvrp_generate_total_demand_raw (c : Cfg) (nV : Nat) (g : GenCfg) (r : RawDraw) (hg : GenOK c nV g)
+    (hr : validRaw c g r) : (generateRaw id c nV g r).demands.sum ≤ c.maxCap * (nV : Int) :=
+  MultiCVRP.generateRaw_total_demand c nV g r hg hr
+
+/-- float32: the coordinates of `generateRaw Jx.roundF32` (the term `multi_cvrp.instance` compares the real reset
+state with) are in the box for every valid raw draw when `map_max = k · 2^sh` is representable -/
+theorem multicvrp_generateRaw_coordsInBox_roundF32 (c : Cfg) (nV : Nat) (g : GenCfg) (r : RawDraw) (k : Nat)
+    (sh : Int) (hmm : g.mapMax = (k : Rat) * Jx.pow2 sh) (hk : k < 16777216) (hs : -149 ≤ sh)
+    (hr : validRaw c g r) : coordsInBox g.mapMax (generateRaw Jx.roundF32 c nV g r) :=
+  MultiCVRP.generateRaw_coordsInBox_rnd Jx.roundF32 MultiCVRP.rndMono_roundF32 c nV g r
+    (by rw [hmm]; exact Rat.mul_nonneg (by exact_mod_cast Nat.zero_le k) (Rat.le_of_lt (Jx.pow2_pos sh)))
+    (by rw [hmm]; exact Jx.roundF32_fix k sh hk hs) hr
+
+/-- the hypotheses are satisfiable: a raw draw for `exampleCfg` (3 customers), two vehicles, unit-box generator with
+demands `< 4`; the scaled demands are `int16([0, 3, 1, 2] · 10/6) = [0, 5, 1, 3]`, clipped to 4 -/
+def exGen : GenCfg :=
+  { mapMax := 10, demandMax := 4, maxStart := 10, windowLen := 20, earlyLo := 0, earlyHi := 1/5, lateLo := 0, lateHi := 1 }
+def exRaw : RawDraw :=
+  { uCoords := [[0, 1/2], [3/4, 1/8], [1/3, 1/3], [1/5, 4/5]], rawDemands := [2, 3, 1, 2], uWin := [0, 1/2, 1/4, 3/4],
+    uEarly := [1/2, 1/10, 0, 9/10], uLate := [1/2, 1/2, 1/3, 0] }
+example : validRaw MultiCVRP.exampleCfg exGen exRaw ∧ GenOK MultiCVRP.exampleCfg 2 exGen ∧
+    exGen.demandMax ≤ MultiCVRP.exampleCfg.maxCap ∧
+    (generateRaw id MultiCVRP.exampleCfg 2 exGen exRaw).demands = [0, 4, 1, 3] ∧
+    (generateRaw id MultiCVRP.exampleCfg 2 exGen exRaw).coords = [[0, 5], [15/2, 5/4], [10/3, 10/3], [2, 8]] := by
+  decide +kernel
 end Props.C10
 
 namespace Props.C11
@@ -377,8 +649,10 @@ end Props.C11
 
 namespace Props.C12
 /-- the observation is the documented function of the successor state (problem data copied, vehicle
-coordinates looked up from the positions, `action_mask` = table of legal (vehicle, node) pairs) -/
-theorem multicvrp_obs_faithful (rnd : Rat → Rat) (c : Cfg) (D : Dist) (s : State) (a : List Nat)
+coordinates looked up from the positions, `action_mask` = table of legal (vehicle, node) pairs).
+PARTIAL: entries `≤ num_customers` only (`hr`); false for the in-spec value `num_customers + 1`
+(`Props.C05.multicvrp_spec_max_witness`) -/
+theorem multicvrp_obs_faithful_partial (rnd : Rat → Rat) (c : Cfg) (D : Dist) (s : State) (a : List Nat)
     (hl : a.length = s.capacities.length) (hr : ∀ x ∈ a, x < s.demands.length)
     (hc : s.coords.length = s.demands.length) :
     (step rnd c D s a).2.obs = observe (step rnd c D s a).1 :=
